@@ -3,7 +3,7 @@
 From PV Require Import Base.Prelude Store.Base Store.BaseProofs Store.Flags Store.ModSeq
      Store.ModSeqProofs Store.Mailbox Store.MailboxProofs Store.View Store.ViewProofs
      Store.Compare Store.CompareProofs Store.Session Store.SelProofs Store.System
-     Store.SystemProofs Store.StoreExamples Store.FlagsTruth Wire.SeqSet.
+     Store.SystemProofs Store.StoreExamples Store.FlagsTruth Store.ClientFlags Wire.SeqSet.
 
 (* _ModSequenceMapping.update/expunge: the log stays well-formed; afterwards the
    given uids have their last record at the new mod-seq (update or expunge), every
@@ -80,6 +80,20 @@ Theorem C02_converges : forall ls me s c,
 Proof. exact reachable_converges. Qed.
 Print Assumptions C02_converges.
 
+(* the same for a session selected on a maildir mailbox (mb_md = true), where NOOP/CHECK is
+   the full rescan: the list and the flags are those of the files, whatever happened before *)
+Theorem C02_maildir_converges : forall ls me s b c,
+  let sy := exec sys_empty ls in
+  sel_of sy me = Some s -> aget (sel_box s) (sy_boxes sy) = Some b -> mb_md b = true ->
+  ss_idle (sess_of sy me) = false -> c = CNoop \/ c = CCheck ->
+  let sy' := fst (step sy (Cmd me c)) in
+  exists s', sel_of sy' me = Some s' /\ aget (sel_box s') (sy_boxes sy') = Some b
+    /\ v_sorted (sel_view s') = mb_uids b
+    /\ v_pending (sel_view s') = []
+    /\ (forall u m, mb_alive u b = Some m -> aget u (v_fkeys (sel_view s')) = Some (m_flags m)).
+Proof. exact maildir_converges. Qed.
+Print Assumptions C02_maildir_converges.
+
 (* ... and the client holds that list (C01) *)
 Theorem C02_client_converges : forall ls,
   exists cls, shadow_exec (sys_empty, fun _ => None) ls = Some (exec sys_empty ls, cls)
@@ -93,8 +107,10 @@ Print Assumptions C02_client_converges.
 Theorem C02_no_false_expunge : forall ls me s,
   let sy := exec sys_empty ls in
   sel_of sy me = Some s ->
-  exists b mq, aget (sel_box s) (sy_boxes sy) = Some b /\ sel_modseq s = Some mq
-    /\ (forall u q, log_last (mb_log b) u = Some (q, true) -> (q <= mq)%N -> In u (v_sorted (sel_view s)))
+  exists b, aget (sel_box s) (sy_boxes sy) = Some b
+    /\ (mb_md b = false -> exists mq, sel_modseq s = Some mq
+          /\ (forall u q, log_last (mb_log b) u = Some (q, true) -> (q <= mq)%N ->
+                          In u (v_sorted (sel_view s))))
     /\ (forall u, In u (v_pending (sel_view s)) -> ~ In u (mb_uids b))
     /\ (forall u, In u (v_sorted (sel_view s)) -> known b u).
 Proof. exact reachable_no_false_expunge. Qed.
@@ -114,19 +130,60 @@ Theorem C02_fetch_tells_stored_flags : forall ls me c,
 Proof. exact reachable_fetch_truthful. Qed.
 Print Assumptions C02_fetch_tells_stored_flags.
 
-(* (2) partial: _compare sends a FETCH for every message whose synchronized flags
-   differ from the previous snapshot unless that exact result was silenced by the
-   session's own STORE.SILENT.  What is not proved is the last step: that the flags a
-   client has been told, together with its own arithmetic for silenced STOREs, equal
-   _flags_key_map at every quiescent point — checked by the converge_flags monitor. *)
-Theorem C02_flag_change_reported_partial :
+(* (2) _compare sends a FETCH for every message whose synchronized flags differ from the
+   previous snapshot unless that exact result was silenced by the session's own
+   STORE.SILENT (the pure core of the next two statements). *)
+Theorem C02_compare_reports_flags :
   forall cached before after hide silenced recent with_uid u f,
   In (u, f) (fz_flags after) -> uf_mem (u, f) (fz_flags before) = false ->
   uf_mem (u, f) silenced = false ->
   exists r, In r (compare cached before after hide silenced recent with_uid)
             /\ (r = Bug \/ exists n fl sh, r = Fetch n u fl sh).
 Proof. exact compare_reports_flags. Qed.
-Print Assumptions C02_flag_change_reported_partial.
+Print Assumptions C02_compare_reports_flags.
+
+(* (3) the client's belief (System.cfs_exec): per connection, the flag list of the last
+   FETCH response read for a message, and the client's own arithmetic for its successful
+   STORE.SILENT commands (computed from its own message list).  For every history of any
+   number of sessions on either backend: whenever a client believes something about a
+   message of its view that exists, it is — as a set, \Recent aside — what its session
+   has synchronized (_flags_key_map). *)
+Theorem C02_client_flags_sound : forall ls me s b u f,
+  let st := cfs_exec cfs_start ls in
+  sel_of (fst st) me = Some s -> aget (sel_box s) (sy_boxes (fst st)) = Some b ->
+  aget u (snd st me) = Some f -> In u (v_sorted (sel_view s)) -> mb_alive u b <> None ->
+  exists k, aget u (v_fkeys (sel_view s)) = Some k /\ fl_equiv f k.
+Proof. exact client_flags_sound. Qed.
+Print Assumptions C02_client_flags_sound.
+
+(* ... hence: after NOOP (or CHECK) in any reachable state, the client's message list is
+   the mailbox's and the client's flags of every message equal the stored flags (as sets,
+   \Recent aside, which is per session and not stored) *)
+Theorem C02_flag_change_reported : forall ls me c,
+  let st := cfs_exec cfs_start ls in
+  sel_of (fst st) me <> None -> ss_idle (sess_of (fst st) me) = false ->
+  c = CNoop \/ c = CCheck ->
+  let st' := cfs_step st (Cmd me c) in
+  exists s' b', sel_of (fst st') me = Some s' /\ aget (sel_box s') (sy_boxes (fst st')) = Some b'
+    /\ v_sorted (sel_view s') = mb_uids b'
+    /\ forall u m f, mb_alive u b' = Some m -> aget u (snd st' me) = Some f -> fl_equiv f (m_flags m).
+Proof. exact client_flags_converge. Qed.
+Print Assumptions C02_flag_change_reported.
+
+(* the maildir backend: the theorems above quantify over label sequences that may create
+   maildir mailboxes (CreateMaildir); this is the three-session example on a maildir INBOX,
+   evaluated by the kernel (views converge, the shadow client follows) *)
+Theorem C02_example_maildir :
+  let sy := exec sys_empty md_trace in
+  view_of sy 1%N = Some [2; 3; 5]%N /\ view_of sy 2%N = Some [2; 3; 5]%N
+  /\ view_of sy 3%N = Some [2; 3; 5]%N
+  /\ option_map mb_uids (aget 1%N (sy_boxes sy)) = Some [2; 3; 5]%N
+  /\ match shadow_exec (sys_empty, fun _ => None) md_trace with
+     | Some (_, cls) => cls 3%N = Some [2; 3; 5]%N
+     | None => False
+     end.
+Proof. exact md_views. Qed.
+Print Assumptions C02_example_maildir.
 
 (* non-vacuity: the three-session example trace converges *)
 Theorem C02_example_trace :
